@@ -181,7 +181,7 @@ def native_replay(U, native, cex, base, info, real_inputs=False):
     info["replay_build"] = " ".join(cmd)
     if p.returncode != 0:
         raise ExtractionBreak("replay does not compile: " + p.stderr[-2000:])
-    r = subprocess.run([exe], stdout=subprocess.PIPE, stderr=subprocess.PIPE, text=True, timeout=60)
+    r = subprocess.run([exe], stdout=subprocess.PIPE, stderr=subprocess.PIPE, text=True, errors="replace", timeout=60)
     info["replay_exit"] = r.returncode
     os.remove(exe)
     out = r.stdout + r.stderr
@@ -240,7 +240,7 @@ def build_replay(U, job, ob, outdir, prop_id):
         info["replay_build"] = " ".join(cmd)
         if p.returncode != 0:
             raise ExtractionBreak("replay does not compile: " + p.stderr[-2000:])
-        r = subprocess.run([exe], stdout=subprocess.PIPE, stderr=subprocess.PIPE, text=True, timeout=60)
+        r = subprocess.run([exe], stdout=subprocess.PIPE, stderr=subprocess.PIPE, text=True, errors="replace", timeout=60)
         output = r.stdout + r.stderr
         confirmed = (r.returncode == 1)
         info["replay_exit"] = r.returncode
@@ -338,7 +338,7 @@ def build_math_replay(U, job, ob, outdir, prop_id):
         info["replay_build"] = " ".join(cmd)
         if p.returncode != 0:
             raise ExtractionBreak("replay does not compile: " + p.stderr[-2000:])
-        r = subprocess.run([exe], stdout=subprocess.PIPE, stderr=subprocess.PIPE, text=True, timeout=60)
+        r = subprocess.run([exe], stdout=subprocess.PIPE, stderr=subprocess.PIPE, text=True, errors="replace", timeout=60)
         os.remove(exe)
         output = r.stdout + r.stderr
         native = {}
@@ -478,7 +478,7 @@ def build_lemma_replay(U, job, ob, outdir, prop_id):
         info["replay_build"] = " ".join(cmd)
         if p.returncode != 0:
             raise ExtractionBreak("replay does not compile: " + p.stderr[-2000:])
-        r = subprocess.run([exe], stdout=subprocess.PIPE, stderr=subprocess.PIPE, text=True, timeout=60)
+        r = subprocess.run([exe], stdout=subprocess.PIPE, stderr=subprocess.PIPE, text=True, errors="replace", timeout=60)
         os.remove(exe)
         native = {}
         for line in r.stdout.splitlines():
